@@ -13,12 +13,13 @@ import (
 	"pgregory.net/rapid"
 	"reduction.dev/reduction/batching"
 	"reduction.dev/reduction/proto/snapshotpb"
+	"reduction.dev/reduction/proto/workerpb"
 	"verifharness/hx"
 	"verifharness/opx"
 )
 
 type item struct {
-	Kind string // event | wm | barrier
+	Kind string // event | wm | barrier | complete (the runner's source is exhausted: SourceComplete; afterwards it only relays barriers)
 	Key  int
 	WM   int64
 }
@@ -51,6 +52,18 @@ func gen(rt *rapid.T) prog {
 			if b < ckpts {
 				seq = append(seq, item{Kind: "barrier"})
 			}
+		}
+		if i > 0 && rapid.IntRange(0, 2).Draw(rt, "completes") == 0 && len(seq) > 0 {
+			// this runner's source is exhausted at some point: it says so
+			// (SourceComplete) and from then on only relays the job's barriers
+			at := rapid.IntRange(0, len(seq)).Draw(rt, "completeat")
+			done := append(append([]item{}, seq[:at]...), item{Kind: "complete"})
+			for _, it := range seq[at:] {
+				if it.Kind == "barrier" {
+					done = append(done, it)
+				}
+			}
+			seq = done
 		}
 		total += len(seq)
 		p.Seqs = append(p.Seqs, seq)
@@ -202,6 +215,8 @@ func exec(p prog, c *hx.Case) error {
 				err = op.SendCtx(s.ctx, s.id, opx.Watermark(s.wm))
 			case "barrier":
 				err = op.SendCtx(s.ctx, s.id, opx.Barrier(uint64(s.barrier[s.next]+1)))
+			case "complete":
+				err = op.SendCtx(s.ctx, s.id, &workerpb.Event{Event: &workerpb.Event_SourceComplete{SourceComplete: &workerpb.SourceCompleteEvent{}}})
 			}
 			s.doneCh <- err
 		}
@@ -429,6 +444,15 @@ func exec(p prog, c *hx.Case) error {
 			return hx.Errf("checkpoint %d restored: %s", n, strings.Join(v, "; "))
 		}
 	}
+	completes := 0
+	for _, seq := range p.Seqs {
+		for _, it := range seq {
+			if it.Kind == "complete" {
+				completes++
+			}
+		}
+	}
+	c.LabelIf(completes > 0, "a-runner-completed-and-went-on-relaying-barriers")
 	c.LabelIf(parkedEver > 0, "sender-parked")
 	c.LabelIf(abandoned > 0, "parked-request-abandoned-by-its-runner")
 	c.LabelIf(timeouts > 0, "batch-time-out-expired-during-the-schedule")
@@ -440,5 +464,5 @@ func exec(p prog, c *hx.Case) error {
 }
 
 func TestPropAlignment(t *testing.T) {
-	hx.Run(t, hx.Spec{Prop: "C02", Persist: true, Rule: "one real Operator, 1..4 sender goroutines each with its own generated sequence of keyed events (appending their id to state and setting a timer), watermarks and barriers for 1..3 consecutive checkpoints; a generated schedule picks which sender advances, a step ends when that sender's HandleEvent returned or parked in the alignment wait (verif hook); in a third of the cases one runner goes away while its request is parked (the request's context is cancelled, it sends nothing further, the others complete the pending checkpoint); at every OperatorCheckpointComplete(N) the handler must have applied exactly the events each sender emitted before its barrier N, must not have been told a watermark (or fired a timer) beyond the minimum of the pre-barrier watermarks; finally each reported checkpoint is restored and probed against the model state at its acknowledgement; non-trivial = >=2 senders, >=1 parked with an event queued behind its barrier, >=2 checkpoints"}, gen, exec)
+	hx.Run(t, hx.Spec{Prop: "C02", Persist: true, Rule: "one real Operator, 1..4 sender goroutines each with its own generated sequence of keyed events (appending their id to state and setting a timer), watermarks and barriers for 1..3 consecutive checkpoints (a third of the runners other than the first report their source exhausted at some point and only relay barriers afterwards); a generated schedule picks which sender advances, a step ends when that sender's HandleEvent returned or parked in the alignment wait (verif hook); in a third of the cases one runner goes away while its request is parked (the request's context is cancelled, it sends nothing further, the others complete the pending checkpoint); at every OperatorCheckpointComplete(N) the handler must have applied exactly the events each sender emitted before its barrier N, must not have been told a watermark (or fired a timer) beyond the minimum of the pre-barrier watermarks; finally each reported checkpoint is restored and probed against the model state at its acknowledgement; non-trivial = >=2 senders, >=1 parked with an event queued behind its barrier, >=2 checkpoints"}, gen, exec)
 }
